@@ -456,7 +456,7 @@ macro_rules! ntp_duration_scalar_div {
             fn div(self, rhs: $scalar_type) -> NtpDuration {
                 // No overflow risks for division
                 NtpDuration {
-                    duration: self.duration / (rhs as i64),
+                    duration: self.duration.saturating_div(rhs as i64),
                 }
             }
         }
@@ -464,7 +464,7 @@ macro_rules! ntp_duration_scalar_div {
         impl DivAssign<$scalar_type> for NtpDuration {
             fn div_assign(&mut self, rhs: $scalar_type) {
                 // No overflow risks for division
-                self.duration /= (rhs as i64);
+                self.duration = self.duration.saturating_div(rhs as i64);
             }
         }
     };
